@@ -700,7 +700,8 @@ class _MutableSetMixin:
             # Each key toggles membership exactly once, however often
             # an arbitrary iterable repeats it.
             if not isinstance(it, _Base):
-                it = set(it)
+                # (found by comparison: keys need not be hashable)
+                it = self._set_type(it)
             for value in it:
                 if value in self:
                     self.discard(value)
